@@ -235,8 +235,7 @@ def truth_tables(check, repo, tier):
                 check.violation("R3", "validate:axes:rejects-inside",
                                 f"BoundManager.validate('axes', p) rejects a point whose known coordinates may all be inside (per-axis verdicts {verdicts})",
                                 [f"path decisions: {decisions_text(path, 20)}"])
-    if n_paths < 40:
-        raise AnalysisError(f"C03.R3: only {n_paths} predicate paths enumerated (floor 40)")
+    check.floor(not (n_paths < 40), f"C03.R3: only {n_paths} predicate paths enumerated (floor 40)")
     # --- set_bounds: a pair is stored only when min < max
     I.sign_mode = "sign"
     g = P.func("BoundManager.set_bounds")
@@ -265,8 +264,7 @@ def truth_tables(check, repo, tier):
                     check.ok("R4", "set_bounds(axes): stored after the Point ordering test")
             elif muts:
                 check.violation("R4", f"set_bounds:{prop}:stores-then-raises", f"set_bounds('{prop}') stores the pair and then raises {path.value.cls}", [])
-    if stored < 2:
-        raise AnalysisError("C03.R4: no accepting path of set_bounds found")
+    check.floor(stored >= 2, "C03.R4: no accepting path of set_bounds found")
     return n_paths
 
 
@@ -277,8 +275,7 @@ def run(check, repo, tier):
     check.rule("R4", "all seven bounded property names are validated by some command path; set_bounds stores only ordered pairs")
     cr = CommandRun(repo, tier=tier, event_funcs=(VALIDATE,), exclude=("write",), cm_body=("pass",))
     results = cr.run(analyse)
-    if cr.stats["commands"] < 40:
-        raise AnalysisError(f"C03: only {cr.stats['commands']} public commands analysed (floor 40)")
+    check.floor(not (cr.stats["commands"] < 40), f"C03: only {cr.stats['commands']} public commands analysed (floor 40)")
     props = set()
     word_obl = 0
     for r in results:
@@ -310,8 +307,7 @@ def run(check, repo, tier):
             check.ok("R4", f"property '{name}' is validated on some command path")
         else:
             check.violation("R4", f"never-validated:{name}", f"no public command ever validates the bounded property '{name}'", [])
-    if word_obl < 200:
-        raise AnalysisError(f"C03: only {word_obl} word/target obligations found (floor 200)")
+    check.floor(not (word_obl < 200), f"C03: only {word_obl} word/target obligations found (floor 200)")
     n3 = truth_tables(check, repo, tier)
     check.analysed = dict(cr.stats, predicate_paths=n3, properties_validated=sorted(props))
     check.coverage["exhaustive"] = tier == "thorough"
